@@ -45,7 +45,8 @@ type c15Scenario struct {
 	Shape    string    `json:"shape"`
 }
 
-var c15Names = []string{"甲", "乙", "丙", "库-丁", "库-深-戊"}
+// a plain name, nested names sharing a prefix, and a module 库 whose file 库.zn sits next to the directory 库/
+var c15Names = []string{"甲", "乙", "丙", "库-丁", "库-深-戊", "库"}
 
 func c15Path(name string) string {
 	return "/proj/" + strings.ReplaceAll(name, "-", "/") + ".zn"
